@@ -204,10 +204,17 @@ NOT_SCRIPTS = {"__init__", "commit", "conditional_commit"}
 INLINABLE = {"replace", "get_metadata"}
 
 
-class Script:
-    """Walks one method body in order and collects its micro-steps."""
+class _BulkRaised(Exception):
+    """failing mode: the bulk statement raised; only enclosing `finally` blocks still run"""
 
-    def __init__(self, cls, name):
+
+class Script:
+    """Walks one method body in order and collects its micro-steps.  With bulk_fails=True the
+    walk follows the path on which the executemany raises part-way: the rows that went
+    through are `rows`, `rest` more were given; after it only `finally` clauses run."""
+
+    def __init__(self, cls, name, bulk_fails=False):
+        self.bulk_fails = bulk_fails
         self.cls = cls
         self.name = name
         self.fn = _method(cls, name)
@@ -313,6 +320,9 @@ class Script:
             self.params.append(("rows", "list Z"))
             self.items.append("[ExecMany rows]")
             self.uncounted = "rows" if self.uncounted == 0 else "mixed"
+            if self.bulk_fails:
+                self.params.append(("rest", "nat"))
+                raise _BulkRaised()
         elif kind == "commit":
             if call.args or call.keywords:
                 raise Fail(f"{self.name}: commit() with arguments")
@@ -328,7 +338,8 @@ class Script:
                 # qscript blocks); anything else is emitted as it is and the bridge decides
             elif isinstance(a, ast.Call) and isinstance(a.func, ast.Name) and a.func.id == "len" \
                     and len(a.args) == 1 and isinstance(a.args[0], ast.Name) and a.args[0].id == self.many_rows:
-                k = "(Z.of_nat (length rows))"
+                # on the failing path `rows` are the rows that went through, len() is of all rows
+                k = "(Z.of_nat (length rows + rest))" if self.bulk_fails else "(Z.of_nat (length rows))"
             else:
                 raise Fail(f"{self.name}: unsupported conditional_commit argument")
             self.items.append(f"[CondCommit {k}]")
@@ -413,6 +424,16 @@ class Script:
                     self.params.append(("ups", "list Z"))
                     self.items.append(f"flat_map (fun u => {inner}) ups")
                 # else: pure loop (building event_rows)
+            elif isinstance(st, ast.Try):
+                # try: <statements> finally: <statements>  (no except/else: nothing is swallowed)
+                if st.handlers or st.orelse or not st.finalbody:
+                    raise Fail(f"{self.name}: only try/finally is supported (line {st.lineno})")
+                try:
+                    self.run_body(st.body, top=False)
+                except _BulkRaised:
+                    self.run_body(st.finalbody, top=False)
+                    raise
+                self.run_body(st.finalbody, top=False)
             elif isinstance(st, ast.If):
                 if self.has_micro([st.test] + st.body + st.orelse):
                     raise Fail(f"{self.name}: statements under a condition (line {st.lineno})")
@@ -437,7 +458,12 @@ class Script:
                 raise Fail(f"{self.name}: unsupported statement {type(st).__name__}")
 
     def run(self):
-        self.run_body(self.fn.body)
+        try:
+            self.run_body(self.fn.body)
+            if self.bulk_fails:
+                raise Fail(f"{self.name}: no bulk statement found")
+        except _BulkRaised:
+            pass
         return self
 
     def text(self, items=None):
@@ -493,11 +519,12 @@ def tr_scripts(repo):
     im = scripts["insert_many"]
     if im.before_bulk is None:
         raise Fail("insert_many: no bulk statement found")
-    # the bulk statement raises part-way: the script stops after the rows that went through
-    if [n for n, _ in im.params] != ["ups", "rows"]:
-        raise Fail("insert_many: unexpected parameters")
-    out.append("Definition gen_script_insert_many_failed (ups : list Z) (rows : list Z) : list micro :=\n  "
-               + " ++ ".join(im.before_bulk + ["[ExecMany rows]", "[]"]) + ".\n")
+    # the bulk statement raises part-way: what still runs is read off the source (finally clauses)
+    imf = Script(cls, "insert_many", bulk_fails=True).run()
+    if imf.params != [("ups", "list Z"), ("rows", "list Z"), ("rest", "nat")]:
+        raise Fail(f"insert_many (failing path): unexpected parameters {imf.params}")
+    out.append("Definition gen_script_insert_many_failed (ups : list Z) (rows : list Z) (rest : nat) : list micro :=\n  "
+               + imf.text() + ".\n")
     arms = []
     for ctor, m, types in OPS:
         ps = scripts[m].params
@@ -506,7 +533,7 @@ def tr_scripts(repo):
         names = " ".join(n for n, _ in ps)
         arms.append(f"  | {ctor} {names}".rstrip() + f" => gen_script_{m} {names}".rstrip())
     arms.append("  | Rejected => []")
-    arms.append("  | InsertManyFailed ups done => gen_script_insert_many_failed ups done")
+    arms.append("  | InsertManyFailed ups done rest => gen_script_insert_many_failed ups done rest")
     out.append("Definition gen_expand (o : op) : list micro :=\n  match o with\n" + "\n".join(arms) + "\n  end.\n")
     out.append("Definition gen_init_n : Z := 0.\n")
     return "\n".join(out)
